@@ -419,7 +419,7 @@ def main(tier, seed):
             if (clock, child) in (('sys', 'sys'), ('tempo', 'tempo')):
                 continue
             for other in (0, 1):
-                tempos = [2.0] if tier == 'quick' else [2.0, 0.5, 3.0]
+                tempos = [2.0] if tier == 'quick' else [2.0, 0.5, 4.0]      # dyadic: 1/tempo must be exact in the real-number model
                 for T in (tempos if 'tempo' in (clock, child) else [2.0]):
                     rt.append(dict(mode='rt', clock=clock, child=child, other=other, nyield=2 if tier == 'quick' else 3,
                                    tempo=T))
